@@ -250,7 +250,7 @@ def split_model(it, args, kw):
 
 # =========================================================================================================================================
 def build(tier, seed):
-    plan = Plan("C32", level="other")
+    plan = Plan("C32", level="proof")
     # (pennylane is NOT imported here: the symbolic obligations do not need it; a worker imports it when it replays a counter-model)
     plan.explanation = ("The real bodies of measure_final_state / measure_with_samples / the packing ends of the sampling helpers / "
                         "simulate are executed symbolically with every per-measurement result an uninterpreted marker value "
@@ -268,7 +268,13 @@ def build(tier, seed):
                               "jax.random.split(key, num): a tuple of num keys"]
     plan.dropped = ["docstrings, annotations, @debug_logger decorators (logging only)"]
     add_measure_final_state(plan, tier)
+    add_measure_final_state_symbolic(plan, tier)
     add_measure_with_samples(plan, tier)
+    add_simulate(plan, tier)
+    add_sampling_helpers(plan, tier)
+    add_interface_converters(plan, tier)
+    add_jacobian_products(plan, tier)
+    add_native_standin(plan, tier)
     return plan
 
 
@@ -595,3 +601,1012 @@ def add_measure_with_samples(plan, tier):
         "measurement group of the right kind, same shots / state / batched flag) are PROVED at the call site"]
     plan.assumptions.append("mid_measurements together with a shot vector is not a reachable request (simulate_one_shot_native_mcm runs "
                             "shots=[1] circuits; simulate_tree_mcm splits the shot vector first): excluded from the measure_with_samples cases")
+
+
+# =========================================================================================================================================
+# interface layer: pure structural recursion over result batches
+AUTOGRAD = "pennylane/workflow/interfaces/autograd.py"
+JAX = "pennylane/workflow/interfaces/jax.py"
+JAXJIT = "pennylane/workflow/interfaces/jax_jit.py"
+TORCH = "pennylane/workflow/interfaces/torch.py"
+JPC = "pennylane/workflow/jacobian_products.py"
+CONV = z3.Function("C32_converted_leaf", LabelSort, LabelSort)
+IS_JAX = z3.Function("C32_leaf_is_already_jax", LabelSort, z3.BoolSort())
+
+
+def batch_family(quick):
+    """result batches: tuple over circuits of SHAPE(n, copies); (n, copies) per circuit"""
+    singles = [((n, c),) for n in (1, 2, 3) for c in (None, 2, 3)]
+    pairs = [((1, None), (2, 2)), ((3, 3), (1, 2)), ((2, None), (2, None)), ((1, None), (1, None)), ((3, None), (1, 3))]
+    fam = singles + pairs + [((1, None), (2, None), (1, 2))]
+    return fam if not quick else [f for i, f in enumerate(fam) if i % 2 == 0 or len(f) > 1]
+
+
+def build_batch(shape, leaf, containers="tuple"):
+    """nested value of a batch shape; containers: 'tuple' | 'list' (every level a list) | 'mixed' (batch level list, rest tuples)"""
+    def conv(x, depth):
+        if isinstance(x, tuple):
+            items = [conv(y, depth + 1) for y in x]
+            as_list = containers == "list" or (containers == "mixed" and depth == 0)
+            return list(items) if as_list else tuple(items)
+        return x
+    return conv(tuple(SHAPE(n, c, lambda k, j, t=t: leaf(t, k, j)) for t, (n, c) in enumerate(shape)), 0)
+
+
+def to_sym(x):
+    """python nested lists -> PyList (symbolic side)"""
+    if isinstance(x, list):
+        return PyList([to_sym(y) for y in x])
+    if isinstance(x, tuple):
+        return tuple(to_sym(y) for y in x)
+    return x
+
+
+def map_leaves(x, f, keep_lists=False):
+    if isinstance(x, (tuple, list)):
+        items = [map_leaves(y, f, keep_lists) for y in x]
+        return list(items) if (keep_lists and isinstance(x, list)) else tuple(items)
+    return f(x)
+
+
+def match_c(r, e):
+    """like match, with python lists in the expectation standing for list-typed results"""
+    if isinstance(e, list):
+        items = r.items if isinstance(r, PyList) else (r if isinstance(r, list) else None)
+        if items is None or len(items) != len(e):
+            return False
+        parts = [match_c(a, b) for a, b in zip(items, e)]
+        return False if any(p is False for p in parts) else And(True, *parts)
+    if isinstance(e, tuple):
+        if not isinstance(r, tuple) or len(r) != len(e):
+            return False
+        parts = [match_c(a, b) for a, b in zip(r, e)]
+        return False if any(p is False for p in parts) else And(True, *parts)
+    return match(r, e)
+
+
+class FakeNS:
+    def __init__(self, **kw):
+        self.__dict__.update(kw)
+
+
+def add_interface_converters(plan, tier):
+    quick = tier != "thorough"
+    fam = batch_family(quick)
+    plan.size_bounds.append(f"interface converters (_to_autograd, _to_jax x2, _res_to_torch): {len(fam)} result-batch nestings (1-3 circuits, each "
+                            "SHAPE(1-3 measurements, no / 2 / 3 shot copies)) x container types (tuples; lists at every level; list batch of "
+                            "tuples) + a counts-dictionary leaf; leaves symbolic")
+
+    def leaf_conv_sym(kind):
+        if kind == "jax":
+            return lambda x: z3.If(IS_JAX(x), x, CONV(x))
+        return lambda x: CONV(x)
+
+    def get_interface(it, args, kw):
+        (x,) = args
+        return "jax" if it.ctx.branch(IS_JAX(x)) else "numpy"
+
+    def conv_model(it, args, kw):
+        return CONV(args[0])
+
+    def type_model(it, args, kw):
+        v = args[0]
+        from vf.pyvc.engine import FuncRef
+        if isinstance(v, tuple):
+            return FuncRef("type", "tuple")
+        if isinstance(v, PyList):
+            return FuncRef("type", "list")
+        if isinstance(v, Rec):
+            return FuncRef("class", v.cls.name, v.cls)
+        raise Unsupp(f"type() of {v!r}")
+
+    specs = [  # (file, function, leaf kind, keeps list type, extra builtins, native patch)
+        (AUTOGRAD, "_to_autograd", "plain", False, {"autograd.numpy.array": conv_model},
+         lambda mod: dict(autograd=FakeNS(builtins=mod.autograd.builtins, numpy=FakeNS(array=lambda x: Marker("conv", x))))),
+        (JAX, "_to_jax", "jax", False, {"jnp.array": conv_model, "qp.math.get_interface": get_interface},
+         lambda mod: dict(jnp=FakeNS(array=lambda x: Marker("conv", x)),
+                          qp=FakeNS(math=FakeNS(get_interface=lambda x: "jax" if (isinstance(x, Marker) and x.key[-1] == "jax") else "numpy")))),
+        (JAXJIT, "_to_jax", "plain", False, {"jnp.array": conv_model}, lambda mod: dict(jnp=FakeNS(array=lambda x: Marker("conv", x)))),
+        (TORCH, "_res_to_torch", "plain", True, {"torch.as_tensor": conv_model, "type": type_model},
+         lambda mod: dict(torch=FakeNS(as_tensor=lambda x, device=None: Marker("conv", x)))),
+    ]
+    for file, fname, kind, keeps, xb, patch in specs:
+        w = World(file, functions=[fname], extra_builtins=dict(xb), stubs={"TorchCtx": ("class TorchCtx:\n    pass\n", {"torch_device": Label})})
+        cases = []
+        for shape in fam:
+            for cont in (("tuple", "list", "mixed") if len(shape) > 1 or shape[0][0] > 1 else ("tuple", "list")):
+                if quick and cont == "mixed" and len(shape) == 1:
+                    continue
+
+                def mk(ctx, nm, shape=shape, cont=cont):
+                    return to_sym(build_batch(shape, lambda t, k, j: z3.Const(ctx.fresh_name(f"res_c{t}_m{k}_s{j}"), LabelSort), cont))
+
+                def post(o, r, n_, kind=kind, keeps=keeps):
+                    def unsym(x):
+                        if isinstance(x, PyList):
+                            return [unsym(y) for y in x.items]
+                        if isinstance(x, tuple):
+                            return tuple(unsym(y) for y in x)
+                        return x
+                    inp = unsym(o.result if hasattr(o, "result") else o.r)
+                    return match_c(r, map_leaves(inp, leaf_conv_sym(kind), keeps))
+
+                def native(mod, a, shape=shape, cont=cont, kind=kind, keeps=keeps, patch=patch, fname=fname):
+                    inp = build_batch(shape, lambda t, k, j: Marker("res", t, k, j, "jax" if (kind == "jax" and (t + k) % 2 == 0) else "np"), cont)
+                    with patched(mod, **patch(mod)):
+                        got = getattr(mod, fname)(inp) if fname != "_res_to_torch" else mod._res_to_torch(inp, FakeNS(torch_device=None))   # pylint: disable=protected-access
+                    lf = (lambda x: x if (kind == "jax" and x.key[-1] == "jax") else Marker("conv", x))
+                    exp = map_leaves(inp, lf, keeps)
+                    return {"native": True, "ok": got == exp and type_nesting(got) == type_nesting(exp), "observed": repr(got), "expected": repr(exp)}
+                label = "batch[" + ";".join(f"{n}m{'' if c is None else f'x{c}copies'}" for n, c in shape) + f"]/{cont}-containers"
+                params = {("result" if fname != "_res_to_torch" else "r"): T("build", mk, gen=lambda rng: None)}
+                if fname == "_res_to_torch":
+                    params["ctx"] = T("build", lambda ctx, nm: Rec(w.classes["TorchCtx"], {"torch_device": z3.Const(ctx.fresh_name("device"), LabelSort)}), gen=lambda rng: None)
+                cases.append(Case(label, params, ensures=native_post(post), size_bounded=True, native_call=native, native_raw=True, max_paths=3000))
+        # a counts dictionary is a leaf and passes through untouched
+        if fname != "_to_jax" or file == JAX:
+            pname = "result" if fname != "_res_to_torch" else "r"
+
+            def mk_d(ctx, nm):
+                d = {"00": z3.Int(ctx.fresh_name("count00")), "11": z3.Int(ctx.fresh_name("count11"))}
+                ctx.ghost["the_dict"] = d
+                return (d, z3.Const(ctx.fresh_name("res"), LabelSort))
+
+            def post_d(o, r, n_, kind=kind, pname=pname):
+                inp = getattr(o, pname)
+                return And(isinstance(r, tuple) and len(r) == 2 and isinstance(r[0], dict) and set(r[0]) == set(inp[0]),
+                           *[r[0][k] == v for k, v in inp[0].items()], match(r[1], leaf_conv_sym(kind)(inp[1])))
+
+            def native_d(mod, a, kind=kind, patch=patch, fname=fname):
+                inp = ({"00": 3, "11": 7}, Marker("res", 0, 1, None, "np"))
+                with patched(mod, **patch(mod)):
+                    got = getattr(mod, fname)(inp) if fname != "_res_to_torch" else mod._res_to_torch(inp, FakeNS(torch_device=None))   # pylint: disable=protected-access
+                return {"native": True, "ok": got == ({"00": 3, "11": 7}, Marker("conv", inp[1])) and isinstance(got, tuple), "observed": repr(got)}
+            params = {pname: T("build", mk_d, gen=lambda rng: None)}
+            if fname == "_res_to_torch":
+                params["ctx"] = T("build", lambda ctx, nm: Rec(w.classes["TorchCtx"], {"torch_device": z3.Const(ctx.fresh_name("device"), LabelSort)}), gen=lambda rng: None)
+            cases.append(Case("counts-dictionary-leaf-untouched", params, ensures=native_post(post_d), size_bounded=True, native_call=native_d, native_raw=True))
+        fc = FnContract(w, fname, cases)
+        for ob in obligations_for("C32", fc, tier):
+            plan.add(ob)
+        plan.fn_under_contract(file, fname)
+    plan.assumed_contracts.append("leaf conversions autograd.numpy.array / jnp.array / torch.as_tensor: uninterpreted functions of the leaf; "
+                                  "qp.math.get_interface(leaf) == 'jax': uninterpreted predicate of the leaf")
+
+
+def type_nesting(x):
+    if isinstance(x, (tuple, list)):
+        return (type(x).__name__,) + tuple(type_nesting(y) for y in x)
+    return "*"
+
+
+# =========================================================================================================================================
+# jacobian_products.py: the pure-python assembling of jvps / vjps (shot-vector axis outermost, single measurement unwrapped)
+MP_SHAPE = z3.Function("C32_mp_shape", LabelSort, z3.IntSort(), LabelSort)            # mp.shape(shots=s); s = -1 for None
+ZEROS = z3.Function("C32_np_zeros", LabelSort, LabelSort, LabelSort)                   # np.zeros(shape, dtype=...)
+JVP_F = {True: z3.Function("C32_compute_jvp_multi", LabelSort, LabelSort, LabelSort), False: z3.Function("C32_compute_jvp_single", LabelSort, LabelSort, LabelSort)}
+VJP_F = {True: z3.Function("C32_compute_vjp_multi", LabelSort, LabelSort, LabelSort), False: z3.Function("C32_compute_vjp_single", LabelSort, LabelSort, LabelSort)}
+
+JPC_STUBS = {
+    "QuantumScript": ("class QuantumScript:\n    pass\n", {"measurements": Int, "shots": Int, "trainable_params": Int}),
+    "MeasurementProcess": ("class MeasurementProcess:\n    def shape(self, shots=None, num_device_wires=0):\n        return mp_shape_model(self, shots)\n",
+                           {"tag": Label, "numeric_type": Label}),
+}
+
+
+class StackM(Model):
+    def __init__(self, items):
+        self.items = list(items)
+
+
+def add_jacobian_products(plan, tier):
+    quick = tier != "thorough"
+
+    def sum_fn(c):
+        return z3.Function(f"C32_sum_of_stack_{c}", *([LabelSort] * (c + 1)))
+
+    def shots_int(s):
+        return z3.IntVal(-1) if s is None else to_int_term(s)
+    xb = {"mp_shape_model": lambda it, a, k: MP_SHAPE(a[0].f["tag"], shots_int(a[1])),
+          "np.zeros": lambda it, a, k: ZEROS(a[0], k.get("dtype")),
+          "qp.gradients.compute_jvp_multi": lambda it, a, k: JVP_F[True](a[0], a[1]),
+          "qp.gradients.compute_jvp_single": lambda it, a, k: JVP_F[False](a[0], a[1]),
+          "qp.gradients.compute_vjp_multi": lambda it, a, k: VJP_F[True](a[0], a[1]),
+          "qp.gradients.compute_vjp_single": lambda it, a, k: VJP_F[False](a[0], a[1]),
+          "qp.math.stack": lambda it, a, k: StackM(it.iter_concrete(a[0])),
+          "qp.math.sum": lambda it, a, k: _sum_stack(a, k, sum_fn)}
+    w = World(JPC, classes=dict(SHOT_CLASSES), stubs=JPC_STUBS, functions=["_zero_jvp_single_shots", "_zero_jvp", "_compute_jvps", "_compute_vjps"],
+              extra_builtins=xb, modular={"Shots.__iter__": shots_iter, "Shots.bins": shots_bins})
+    MPc, QS = w.classes["MeasurementProcess"], w.classes["QuantumScript"]
+
+    def mk_tape(ctx, n, pattern, trainable, name):
+        mps = [Rec(MPc, {"tag": z3.Const(ctx.fresh_name(f"{name}.mp{k}"), LabelSort), "numeric_type": z3.Const(ctx.fresh_name(f"{name}.dtype{k}"), LabelSort)})
+               for k in range(n)]
+        return Rec(QS, {"measurements": PyList(mps), "shots": mk_shots(w, ctx, pattern, f"{name}.shots"), "trainable_params": PyList(list(range(trainable)))})
+
+    def quantities(tape):
+        return [sc.f["shots"] for sc in tape.f["shots"].f["shot_vector"] for _ in range(sc.f["copies"])]
+
+    def zero_expected(tape, pattern):
+        mps = tape.f["measurements"].items
+        copies = copies_of(pattern)
+        qs = quantities(tape)
+        tot = tape.f["shots"].f["total_shots"]
+        return SHAPE(len(mps), copies, lambda k, j: ZEROS(MP_SHAPE(mps[k].f["tag"], shots_int(tot if j is None else qs[j])), mps[k].f["numeric_type"]))
+
+    def real_tape(n, pattern, trainable, shots_model=None):
+        import pennylane as qp
+        ms = [qp.probs(wires=list(range(k + 1))) for k in range(n)] if pattern is None else [qp.sample(wires=list(range(k + 1))) for k in range(n)]
+        return qp.tape.QuantumScript([qp.RX(0.5, 0)], ms, shots=real_shots(shots_model, pattern), trainable_params=list(range(trainable)))
+
+    def native_zero_expected(tape, pattern):
+        copies = copies_of(pattern)
+        qs = list(tape.shots)
+        return SHAPE(len(tape.measurements), copies,
+                     lambda k, j: Marker("zeros", tuple(tape.measurements[k].shape(shots=tape.shots.total_shots if j is None else qs[j]))))
+
+    fake_np = FakeNS(zeros=lambda shape, dtype=None: Marker("zeros", tuple(shape)))
+    patterns = [None, [1], [2], [1, 2]] if quick else [None, [1], [2], [1, 1], [3], [1, 2], [1, 1, 1]]
+    plan.size_bounds.append(f"_zero_jvp: 1-3 measurements x shots {patterns}; _compute_jvps / _compute_vjps: batches of 1-2 circuits, each "
+                            "(1-2 measurements, no / 2 / 3 shot copies, 0 or 1 trainable parameters); jacobians, tangents, cotangents symbolic")
+
+    # ---- _zero_jvp -------------------------------------------------------------------------------------------------------------------------
+    cases = []
+    for n in (1, 2, 3):
+        for pattern in patterns:
+            def native(mod, a, n=n, pattern=pattern):
+                tape = real_tape(n, pattern, 0, (a.get("tape") or {}).get("shots") if isinstance(a.get("tape"), dict) else None)
+                with patched(mod, np=fake_np):
+                    got = mod._zero_jvp(tape)        # pylint: disable=protected-access
+                exp = native_zero_expected(tape, pattern)
+                return {"native": True, "ok": got == exp and nesting(got) == nesting(exp), "observed": repr(got), "expected": repr(exp)}
+            cases.append(Case(f"{n}-measurements/shots[{'analytic' if pattern is None else 'x'.join(map(str, pattern))}]",
+                              {"tape": T("build", lambda ctx, nm, n=n, pattern=pattern: mk_tape(ctx, n, pattern, 0, "tape"), gen=lambda rng: None)},
+                              ensures=native_post(lambda o, r, n_, pattern=pattern: match(r, zero_expected(o.tape, pattern))), size_bounded=True,
+                              native_call=native, native_raw=True))
+    fc = FnContract(w, "_zero_jvp", cases)
+    for ob in obligations_for("C32", fc, tier):
+        plan.add(ob)
+
+    # ---- _compute_jvps / _compute_vjps ------------------------------------------------------------------------------------------------------
+    tape_kinds = [(1, None, 1), (2, None, 1), (1, [2], 1), (2, [1, 2], 1), (2, [2], 0), (1, None, 0), (1, [1], 1), (2, [1], 0)]
+    batches = [(k,) for k in tape_kinds] + [(tape_kinds[0], tape_kinds[3]), (tape_kinds[2], tape_kinds[1]), (tape_kinds[4], tape_kinds[3]), (tape_kinds[6], tape_kinds[5])]
+    jcases, vcases = [], []
+    for batch in batches:
+        label = "batch[" + ";".join(f"{n}m/{'no-vector' if copies_of(p) is None else str(copies_of(p)) + 'copies'}{'' if p is None or copies_of(p) is not None else ''}"
+                                    f"/{tr}trainable{'/analytic' if p is None else ''}" for n, p, tr in batch) + "]"
+
+        def mk_jac(ctx, nm, batch=batch):
+            out = []
+            for t, (n, p, tr) in enumerate(batch):
+                c = copies_of(p)
+                out.append(z3.Const(ctx.fresh_name(f"{nm}{t}"), LabelSort) if c is None else tuple(z3.Const(ctx.fresh_name(f"{nm}{t}_copy{j}"), LabelSort) for j in range(c)))
+            return tuple(out)
+
+        def mk_flat(ctx, nm, batch=batch):
+            return tuple(z3.Const(ctx.fresh_name(f"{nm}{t}"), LabelSort) for t in range(len(batch)))
+
+        def mk_tapes(ctx, nm, batch=batch):
+            return tuple(mk_tape(ctx, n, p, tr, f"tape{t}") for t, (n, p, tr) in enumerate(batch))
+
+        def jvp_post(o, r, n_, batch=batch):
+            exp = []
+            for t, (n, p, tr) in enumerate(batch):
+                c = copies_of(p)
+                if tr == 0:
+                    exp.append(zero_expected(o.tapes[t], p))
+                elif c is None:
+                    exp.append(JVP_F[n > 1](o.tangents[t], o.jacs[t]))
+                else:
+                    exp.append(tuple(JVP_F[n > 1](o.tangents[t], o.jacs[t][j]) for j in range(c)))
+            return match(r, tuple(exp))
+
+        def vjp_post(o, r, n_, batch=batch):
+            exp = []
+            for t, (n, p, tr) in enumerate(batch):
+                c = copies_of(p)
+                if c is None:
+                    exp.append(VJP_F[n > 1](o.dys[t], o.jacs[t]))
+                else:
+                    exp.append(sum_fn(c)(*[VJP_F[n > 1](o.dys[t][j], o.jacs[t][j]) for j in range(c)]))
+            return match(r, tuple(exp))
+
+        def native_jv(which, batch=batch):
+            def call(mod, a):
+                tapes = tuple(real_tape(n, p, tr) for n, p, tr in batch)
+                jacs = tuple(Marker("jac", t) if copies_of(p) is None else tuple(Marker("jac", t, j) for j in range(copies_of(p))) for t, (n, p, tr) in enumerate(batch))
+                fake_qp = FakeNS(gradients=FakeNS(compute_jvp_multi=lambda dx, j: Marker("jvp_multi", dx, j), compute_jvp_single=lambda dx, j: Marker("jvp_single", dx, j),
+                                                  compute_vjp_multi=lambda d, j: Marker("vjp_multi", d, j), compute_vjp_single=lambda d, j: Marker("vjp_single", d, j)),
+                                 math=FakeNS(stack=lambda xs: ("stack", tuple(xs)), sum=lambda st, axis=None: Marker("sum", st[1], axis)))
+                with patched(mod, np=fake_np, qp=fake_qp):
+                    if which == "jvp":
+                        tangents = tuple(Marker("dx", t) for t in range(len(batch)))
+                        got = mod._compute_jvps(jacs, tangents, tapes)          # pylint: disable=protected-access
+                        exp = []
+                        for t, (n, p, tr) in enumerate(batch):
+                            c = copies_of(p)
+                            nm = "jvp_multi" if n > 1 else "jvp_single"
+                            exp.append(native_zero_expected(tapes[t], p) if tr == 0 else (Marker(nm, tangents[t], jacs[t]) if c is None else
+                                                                                          tuple(Marker(nm, tangents[t], jacs[t][j]) for j in range(c))))
+                    else:
+                        dys = tuple(Marker("dy", t) if copies_of(p) is None else tuple(Marker("dy", t, j) for j in range(copies_of(p))) for t, (n, p, tr) in enumerate(batch))
+                        got = mod._compute_vjps(jacs, dys, tapes)               # pylint: disable=protected-access
+                        exp = []
+                        for t, (n, p, tr) in enumerate(batch):
+                            c = copies_of(p)
+                            nm = "vjp_multi" if n > 1 else "vjp_single"
+                            exp.append(Marker(nm, dys[t], jacs[t]) if c is None else Marker("sum", tuple(Marker(nm, dys[t][j], jacs[t][j]) for j in range(c)), 0))
+                exp = tuple(exp)
+                return {"native": True, "ok": got == exp and nesting(got) == nesting(exp), "observed": repr(got), "expected": repr(exp)}
+            return call
+        jcases.append(Case(label, {"jacs": T("build", lambda ctx, nm, f=mk_jac: f(ctx, "jac"), gen=lambda rng: None),
+                                   "tangents": T("build", lambda ctx, nm, f=mk_flat: f(ctx, "tangent"), gen=lambda rng: None),
+                                   "tapes": T("build", mk_tapes, gen=lambda rng: None)},
+                           ensures=native_post(jvp_post), size_bounded=True, native_call=native_jv("jvp"), native_raw=True))
+        vcases.append(Case(label, {"jacs": T("build", lambda ctx, nm, f=mk_jac: f(ctx, "jac"), gen=lambda rng: None),
+                                   "dys": T("build", lambda ctx, nm, f=mk_jac: f(ctx, "dy"), gen=lambda rng: None),
+                                   "tapes": T("build", mk_tapes, gen=lambda rng: None)},
+                           ensures=native_post(vjp_post), size_bounded=True, native_call=native_jv("vjp"), native_raw=True))
+    for fc in (FnContract(w, "_compute_jvps", jcases), FnContract(w, "_compute_vjps", vcases)):
+        for ob in obligations_for("C32", fc, tier):
+            plan.add(ob)
+    for q in ("_zero_jvp", "_zero_jvp_single_shots", "_compute_jvps", "_compute_vjps"):
+        plan.fn_under_contract(JPC, q)
+    plan.assumed_contracts.append("qp.gradients.compute_jvp_single/multi, compute_vjp_single/multi, np.zeros, mp.shape, qp.math.sum(qp.math.stack(.), axis=0): "
+                                  "uninterpreted functions of their arguments (the per-shot-copy leaf computations)")
+
+
+def _sum_stack(a, k, sum_fn):
+    st = a[0]
+    if not isinstance(st, StackM) or k.get("axis") != 0:
+        raise Unsupp("qp.math.sum of something that is not stack(...) with axis=0")
+    return sum_fn(len(st.items))(*st.items)
+
+
+# =========================================================================================================================================
+# sampling.py: the packing ends of the four measure_fn helpers (what measure_with_samples assumes about them)
+from vf.pyvc.interp import Interp          # noqa: E402
+from vf.pyvc.engine import FloatV         # noqa: E402
+import ast as _ast                         # noqa: E402
+
+
+class C32Interp(Interp):
+    """adds `a[..., lo:hi, :]` (a slice inside a subscript tuple evaluates to a python slice object)"""
+
+    def e_Slice(self, n, env):
+        return slice(self.eval(n.lower, env) if n.lower else None, self.eval(n.upper, env) if n.upper else None, self.eval(n.step, env) if n.step else None)
+
+
+SLICE_F = z3.Function("C32_samples_slice", LabelSort, z3.IntSort(), z3.IntSort(), LabelSort)
+PROC_F = z3.Function("C32_process_samples", LabelSort, LabelSort, LabelSort)
+SAMPLES_F = z3.Function("C32_sample_state", LabelSort, z3.IntSort(), z3.BoolSort(), LabelSort)
+ROT_F = z3.Function("C32_rotated_state", LabelSort, LabelSort)
+PSWS_F = z3.Function("C32_process_state_with_shots", LabelSort, LabelSort, z3.IntSort(), LabelSort)
+TERM_F = z3.Function("C32_term_expval", LabelSort, z3.IntSort(), z3.RealSort())
+
+_MP_METHODS = ("    def process_samples(self, samples, wire_order):\n        return process_samples_model(self, samples, wire_order)\n"
+               "    def process_state_with_shots(self, state, wire_order, shots, rng=None):\n        return psws_model(self, state, wire_order, shots)\n")
+HELPER_STUBS = dict(STUBS)
+for _nm, (_src, _f) in STUBS.items():
+    if "MP" in _nm or _nm in ("MeasurementProcess", "SampleMeasurement"):
+        HELPER_STUBS[_nm] = (_src.replace("    pass\n", _MP_METHODS), _f)
+HELPER_STUBS["Tensor"] = ("class Tensor:\n    pass\n", {"id": Label, "shape": SeqT(Int)})
+HELPER_STUBS["LinearCombination"] = ("class LinearCombination(Sum):\n    def terms(self):\n        return (self.coeffs, self.ops)\n    def __iter__(self):\n        return self.ops\n", {"coeffs": Int, "ops": Int})
+HELPER_STUBS["Sum"] = ("class Sum(Observable):\n    def terms(self):\n        return (self.coeffs, self.ops)\n    def __iter__(self):\n        return self.ops\n", {"coeffs": Int, "ops": Int})
+
+
+class SamplesM(Model):
+    def __init__(self, label):
+        self.label = label
+
+    def vf_getitem(self, interp, idx, node=None):
+        if not (isinstance(idx, tuple) and len(idx) == 3 and idx[0] is Ellipsis and isinstance(idx[1], slice) and idx[1].step is None
+                and isinstance(idx[2], slice) and (idx[2].start, idx[2].stop, idx[2].step) == (None, None, None)):
+            raise Unsupp(f"samples indexed with {idx!r}")
+        return SLICE_F(self.label, to_int_term(idx[1].start), to_int_term(idx[1].stop))
+
+
+def helper_shape(n_members, copies, leaf, as_list):
+    """what measure_with_samples assumes of a helper: one entry per group member; with partitioned shots the entry is a tuple per copy"""
+    vals = [leaf(m, None) if copies is None else tuple(leaf(m, j) for j in range(copies)) for m in range(n_members)]
+    return list(vals) if as_list else tuple(vals)
+
+
+def cum_bins(qs):
+    out, lo = [], 0
+    for q in qs:
+        out.append((lo, lo + q))
+        lo = lo + q
+    return out
+
+
+def match_h(r, e):
+    if isinstance(e, FloatV):
+        return isinstance(r, FloatV) and (r.t == e.t)
+    if isinstance(e, list):
+        items = r.items if isinstance(r, PyList) else (r if isinstance(r, list) else None)
+        if items is None or len(items) != len(e):
+            return False
+        parts = [match_h(a, b) for a, b in zip(items, e)]
+        return False if any(p is False for p in parts) else And(True, *parts)
+    if isinstance(e, tuple):
+        if not isinstance(r, tuple) or len(r) != len(e):
+            return False
+        parts = [match_h(a, b) for a, b in zip(r, e)]
+        return False if any(p is False for p in parts) else And(True, *parts)
+    return match(r, e)
+
+
+def add_sampling_helpers(plan, tier):
+    quick = tier != "thorough"
+    patterns = [[1], [2], [1, 2]] if quick else [[1], [2], [1, 1], [3], [1, 2], [2, 1], [1, 1, 1]]
+    plan.size_bounds.append(f"helper packing ends: groups of 1-3 measurements (diagonalizing gates) / Hamiltonians and Sums of 1-3 terms / one shadow "
+                            f"measurement x shot patterns {patterns}; samples, coefficients, term values, shot quantities symbolic")
+
+    def base_builtins(g):
+        def apply_diag(it, a, k):
+            mps, state, batched = a
+            it.ctx.prove(state is g(it)["state"], "pre:_apply_diagonalizing_gates/state")
+            rot = Rec(state.cls, {"id": ROT_F(state.f["id"]), "shape": state.f["shape"]})
+            g(it)["rotated"] = rot
+            return rot
+
+        def sample_state(it, a, k):
+            (state,) = a
+            gg = g(it)
+            it.ctx.prove(state is gg.get("rotated"), "pre:sample_state/the-rotated-state")
+            it.ctx.prove(k.get("shots") == gg["shots"].f["total_shots"], "pre:sample_state/all-shots-at-once")
+            it.ctx.prove(k.get("is_state_batched") == gg["batched"], "pre:sample_state/batched-flag-unchanged")
+            bt = gg["batched"]
+            return SamplesM(SAMPLES_F(state.f["id"], to_int_term(k.get("shots")), bt))
+        return {"_apply_diagonalizing_gates": apply_diag, "sample_state": sample_state, "split": split_model,
+                "qp.wires.Wires": lambda it, a, k: z3.Const("C32_wires", LabelSort),
+                "process_samples_model": lambda it, a, k: PROC_F(a[0].f["tag"], a[1]),
+                "psws_model": lambda it, a, k: PSWS_F(a[0].f["tag"], a[1].f["id"], to_int_term(a[3]))}
+
+    def ghost(it):
+        return it.ctx.ghost.setdefault("hlp", {})
+
+    def common_params(w, pattern):
+        def state_T():
+            def mk(ctx, nm):
+                st = Rec(w.classes["Tensor"], {"id": z3.Const(ctx.fresh_name("state"), LabelSort), "shape": SeqV(z3.Const(ctx.fresh_name("state.shape"), z3.SeqSort(z3.IntSort())), Int, True)})
+                ctx.ghost.setdefault("hlp", {})["state"] = st
+                return st
+            return T("build", mk, gen=lambda rng: None)
+
+        def shots_T_():
+            def mk(ctx, nm):
+                sh = mk_shots(w, ctx, pattern)
+                ctx.ghost.setdefault("hlp", {})["shots"] = sh
+                return sh
+            return T("build", mk, gen=lambda rng: {"shot_vector": [{"shots": 3 + 2 * i, "copies": c} for i, c in enumerate(pattern)]})
+
+        def batched_T():
+            def mk(ctx, nm):
+                b = z3.Bool(ctx.fresh_name("is_state_batched"))
+                ctx.ghost.setdefault("hlp", {})["batched"] = b
+                return b
+            return T("build", mk, gen=lambda rng: False)
+        return {"state": state_T(), "shots": shots_T_(), "is_state_batched": batched_T(), "rng": NoneT, "prng_key": NoneT}
+
+    def qs_of(shots_rec):
+        return [sc.f["shots"] for sc in shots_rec.f["shot_vector"] for _ in range(sc.f["copies"])]
+
+    class FakeState:
+        shape = (2, 2)
+
+    class FakeSamples:
+        def __getitem__(self, idx):
+            return Marker("slice", idx[1].start, idx[1].stop) if (isinstance(idx, tuple) and len(idx) == 3 and idx[0] is Ellipsis and idx[2] == slice(None)) else Marker("bad-index", repr(idx))
+
+    class FakeMP:
+        obs = None
+
+        def __init__(self, k):
+            self.k = k
+
+        def process_samples(self, samples, wire_order):
+            return Marker("proc", self.k, samples)
+
+        def process_state_with_shots(self, state, wire_order, shots, rng=None):
+            return Marker("psws", self.k, shots)
+
+    def finish(fc, cases):
+        for c in cases:
+            c.interp_cls = C32Interp
+        for ob in obligations_for("C32", fc, tier):
+            plan.add(ob)
+        plan.fn_under_contract(SAM, fc.qualname)
+
+    # ---- _measure_with_samples_diagonalizing_gates ---------------------------------------------------------------------------------------------
+    w = World(SAM, classes=dict(SHOT_CLASSES), stubs=HELPER_STUBS, functions=["jax_random_split"], extra_builtins=base_builtins(ghost),
+              modular={"Shots.__iter__": shots_iter, "Shots.bins": shots_bins})
+    cases = []
+    for n in (1, 2, 3):
+        for pattern in patterns:
+            copies = copies_of(pattern)
+
+            def post(o, r, n_, copies=copies):
+                tags = [m.f["tag"] for m in o.mps.items]
+                bins = cum_bins(qs_of(o.shots))
+                S_ = SAMPLES_F(ROT_F(o.state.f["id"]), to_int_term(o.shots.f["total_shots"]), o.is_state_batched)
+                return match_h(r, helper_shape(len(tags), copies, lambda m, j: PROC_F(tags[m], SLICE_F(S_, to_int_term(bins[j or 0][0]), to_int_term(bins[j or 0][1]))), False))
+
+            def native(mod, a, n=n, pattern=pattern, copies=copies):
+                shots = real_shots(a.get("shots"), pattern)
+                bins = list(shots.bins())
+                with patched(mod, _apply_diagonalizing_gates=lambda mps, state, b=False: state, sample_state=lambda *aa, **kk: FakeSamples()):
+                    got = mod._measure_with_samples_diagonalizing_gates([FakeMP(k) for k in range(n)], FakeState(), shots, is_state_batched=False)   # pylint: disable=protected-access
+                exp = helper_shape(n, copies, lambda m, j: Marker("proc", m, Marker("slice", bins[j or 0][0], bins[j or 0][1])), False)
+                return {"native": True, "ok": got == exp and type_nesting(got) == type_nesting(exp), "observed": repr(got), "expected": repr(exp)}
+            params = dict(mps=T("build", lambda ctx, nm, n=n: PyList([mk_mp(w, ctx, "obs", f"mp{k}") for k in range(n)]), gen=lambda rng: None), **common_params(w, pattern))
+            cases.append(Case(f"{n}-measurements/shots[{'x'.join(map(str, pattern))}]", params, ensures=native_post(post), size_bounded=True, native_call=native, native_raw=True))
+    finish(FnContract(w, "_measure_with_samples_diagonalizing_gates", cases), cases)
+
+    # ---- _measure_classical_shadow ---------------------------------------------------------------------------------------------------------------
+    cases = []
+    for pattern in patterns:
+        copies = copies_of(pattern)
+
+        def post(o, r, n_, copies=copies):
+            tag = o.mp.items[0].f["tag"]
+            qs = qs_of(o.shots)
+            return match_h(r, helper_shape(1, copies, lambda m, j: PSWS_F(tag, o.state.f["id"], to_int_term(o.shots.f["total_shots"] if j is None else qs[j])), True))
+
+        def native(mod, a, pattern=pattern, copies=copies):
+            shots = real_shots(a.get("shots"), pattern)
+            qs = list(shots)
+            got = mod._measure_classical_shadow([FakeMP(0)], FakeState(), shots)        # pylint: disable=protected-access
+            exp = helper_shape(1, copies, lambda m, j: Marker("psws", 0, shots.total_shots if j is None else qs[j]), True)
+            return {"native": True, "ok": got == exp and type_nesting(got) == type_nesting(exp), "observed": repr(got), "expected": repr(exp)}
+        params = dict(mp=T("build", lambda ctx, nm: PyList([mk_mp(w, ctx, "shadow", "mp0")]), gen=lambda rng: None), **common_params(w, pattern))
+        cases.append(Case(f"shots[{'x'.join(map(str, pattern))}]", params, ensures=native_post(post), size_bounded=True, native_call=native, native_raw=True))
+    finish(FnContract(w, "_measure_classical_shadow", cases), cases)
+
+    # ---- _measure_hamiltonian_with_samples / _measure_sum_with_samples ---------------------------------------------------------------------------------
+    for fname, obs_cls, weighted in (("_measure_hamiltonian_with_samples", "LinearCombination", True), ("_measure_sum_with_samples", "Sum", False)):
+        def inner_mws(it, a, k, fname=fname):
+            """the recursive call for ONE shot copy: PRE one expval per term in order, an unpartitioned Shots of that copy's quantity"""
+            ctx = it.ctx
+            gg = ghost(it)
+            mlist, state, s = a
+            ms = list(mlist.items) if isinstance(mlist, PyList) else list(mlist)
+            j = gg.setdefault("calls", 0)
+            gg["calls"] = j + 1
+            ops = gg["ops"]
+            ctx.prove(len(ms) == len(ops) and all(isinstance(m, Rec) and m.cls.name == "ExpectationMP" and m.f.get("tag") is ops[i] for i, m in enumerate(ms)),
+                      f"pre:{fname}/inner-measurements-are-the-terms-in-order")
+            ctx.prove(state is gg["state"], f"pre:{fname}/state-unchanged")
+            ctx.prove(k.get("is_state_batched") == gg["batched"], f"pre:{fname}/batched-flag-unchanged")
+            qs = qs_of(gg["shots"])
+            ok_shape = isinstance(s, Rec) and s.cls.name == "Shots" and isinstance(s.f.get("shot_vector"), tuple) and len(s.f["shot_vector"]) == 1 \
+                and j < len(qs)
+            ctx.prove(ok_shape, f"pre:{fname}/one-unpartitioned-Shots-per-copy")
+            sc = s.f["shot_vector"][0]
+            ctx.prove(z3.And(to_int_term(sc.f["copies"]) == 1, to_int_term(sc.f["shots"]) == qs[j], to_int_term(s.f["total_shots"]) == qs[j]),
+                      f"pre:{fname}/copy-{j}-gets-its-own-shot-quantity")
+            return tuple(FloatV(TERM_F(op, z3.IntVal(j))) for op in ops)
+        xb = dict(base_builtins(ghost), measure_with_samples=inner_mws, **{"math.is_abstract": lambda it, a, k: False})
+        wh = World(SAM, classes=dict(SHOT_CLASSES), stubs=HELPER_STUBS, functions=["jax_random_split"], extra_builtins=xb,
+                   modular={"Shots.__iter__": shots_iter, "Shots.bins": shots_bins})
+        cases = []
+        for nterms in (1, 2, 3):
+            for pattern in patterns:
+                copies = copies_of(pattern)
+
+                def mk_mp_h(ctx, nm, nterms=nterms, wh=wh, obs_cls=obs_cls):
+                    ops = [z3.Const(ctx.fresh_name(f"term{i}"), LabelSort) for i in range(nterms)]
+                    coeffs = [FloatV(z3.Real(ctx.fresh_name(f"coeff{i}"))) for i in range(nterms)]
+                    g_ = ctx.ghost.setdefault("hlp", {})
+                    g_["ops"], g_["coeffs"] = ops, coeffs
+                    obs = Rec(wh.classes[obs_cls], {"coeffs": PyList(coeffs), "ops": PyList(ops)})
+                    return PyList([Rec(wh.classes["ExpectationMP"], {"tag": z3.Const(ctx.fresh_name("mp0"), LabelSort), "obs": obs})])
+
+                def post(o, r, n_, copies=copies, weighted=weighted):
+                    obs = o.mp.items[0].f["obs"]
+                    ops, cs = obs.f["ops"].items, obs.f["coeffs"].items
+
+                    def val(j):
+                        tot = z3.RealVal(0)
+                        for c, op in zip(cs, ops):
+                            tot = tot + ((c.t * TERM_F(op, z3.IntVal(j))) if weighted else TERM_F(op, z3.IntVal(j)))
+                        return FloatV(tot)
+                    return match_h(r, helper_shape(1, copies, lambda m, j: val(j or 0), True))
+
+                def native(mod, a, nterms=nterms, pattern=pattern, copies=copies, weighted=weighted, fname=fname):
+                    import pennylane as qp
+                    from pennylane.core.shots import Shots
+                    shots = real_shots(a.get("shots"), pattern)
+                    qs = list(shots)
+                    coeffs = [0.5 + i for i in range(nterms)]
+                    ops = [qp.X(i) for i in range(nterms)]
+                    H = qp.Hamiltonian(coeffs, ops) if weighted else qp.sum(*ops) if nterms > 1 else qp.ops.Sum(ops[0])
+                    calls = []
+
+                    def fake_mws(measurements, state, s, is_state_batched=False, rng=None, prng_key=None, mid_measurements=None):
+                        j = len(calls)
+                        calls.append((isinstance(s, Shots) and not s.has_partitioned_shots and s.total_shots, len(measurements)))
+                        return tuple(Marker("term", i, j) for i in range(len(measurements)))
+                    with patched(mod, measure_with_samples=fake_mws):
+                        got = getattr(mod, fname)([qp.expval(H)], FakeState(), shots)
+
+                    def val(j):
+                        ms = [Marker("term", i, j) for i in range(nterms)]
+                        return sum(c * m for c, m in zip(coeffs, ms)) if weighted else sum(ms)
+                    exp = helper_shape(1, copies, lambda m, j: val(j or 0), True)
+                    ok = got == exp and type_nesting(got) == type_nesting(exp) and calls == [(q, nterms) for q in qs]
+                    return {"native": True, "ok": ok, "observed": repr(got), "expected": repr(exp), "inner_calls": repr(calls)}
+                params = dict(mp=T("build", mk_mp_h, gen=lambda rng: None), **common_params(wh, pattern))
+                cases.append(Case(f"{nterms}-terms/shots[{'x'.join(map(str, pattern))}]", params, ensures=native_post(post), size_bounded=True, native_call=native, native_raw=True))
+        finish(FnContract(wh, fname, cases), cases)
+    plan.assumed_contracts += ["_apply_diagonalizing_gates / sample_state / mp.process_samples / mp.process_state_with_shots / qp.wires.Wires: uninterpreted; "
+                               "sample_state does not raise (the 'probabilities contain nan' fallback is not explored)",
+                               "inside _measure_hamiltonian/_sum_with_samples the recursive measure_with_samples call returns one real number per term "
+                               "(its own contract: PACKED without a shot vector); its precondition (one ExpectationMP per term in order, an "
+                               "unpartitioned Shots holding that copy's quantity) is PROVED at the call site",
+                               "Shots(int) constructor executed from the real Shots.__new__/__init__ (math.is_abstract(.) = False)"]
+    plan.assumptions.append("A-float-as-real for the weighted sums of term expectation values in the Hamiltonian / Sum helpers")
+
+
+# =========================================================================================================================================
+# simulate.py: simulate (path without mid-circuit measurements) and the shot-vector split of simulate_tree_mcm
+FINAL = z3.Function("C32_final_result", LabelSort, LabelSort, z3.BoolSort(), z3.IntSort(), LabelSort)      # measure_final_state leaf
+TREE = z3.Function("C32_tree_result", LabelSort, z3.IntSort(), z3.IntSort(), LabelSort)                    # (measurement, shots of the copy, copy)
+FSTATE = z3.Function("C32_final_state", LabelSort, LabelSort)
+FBATCH = z3.Function("C32_final_state_is_batched", LabelSort, z3.BoolSort())
+
+SIM_STUBS = dict(STUBS)
+SIM_STUBS["QuantumScript"] = ("class QuantumScript:\n    def copy(self, shots=None):\n        return circuit_copy_model(self, shots)\n"
+                              "    def map_to_standard_wires(self):\n        return map_wires_model(self)\n",
+                              {"id": Label, "measurements": Int, "shots": Int, "operations": Int})
+SIM_STUBS["Operator"] = ("class Operator:\n    pass\n", {})
+
+
+def add_simulate(plan, tier):
+    quick = tier != "thorough"
+    patterns = [None, [1], [2], [1, 2]] if quick else [None, [1], [2], [1, 1], [3], [1, 2], [1, 1, 1]]
+    plan.size_bounds.append(f"simulate (no mid-circuit measurement) and simulate_tree_mcm (shot-vector split): 1-3 measurements x shots {patterns}")
+    COPYID = z3.Function("C32_copied_circuit", LabelSort, LabelSort)
+    MAPID = z3.Function("C32_wire_mapped_circuit", LabelSort, LabelSort)
+
+    def copy_model(it, a, k):
+        c, shots = a
+        new_shots = c.f["shots"] if shots is None else shots
+        return Rec(c.cls, {"id": COPYID(c.f["id"]), "measurements": PyList(list(c.f["measurements"].items)), "shots": new_shots,
+                           "operations": PyList(list(c.f["operations"].items))})
+
+    def map_model(it, a, k):
+        (c,) = a
+        return Rec(c.cls, {"id": MAPID(c.f["id"]), "measurements": PyList(list(c.f["measurements"].items)), "shots": c.f["shots"],
+                           "operations": PyList(list(c.f["operations"].items))})
+
+    def jrs(it, a, k):
+        num = k.get("num", a[1] if len(a) > 1 else 2)
+        if a[0] is None:
+            return (None,) * num
+        return tuple(z3.Const(it.ctx.fresh_name("subkey"), LabelSort) for _ in range(num))
+
+    def gfs(it, a, k):
+        (c,) = a
+        it.ctx.ghost.setdefault("sim", {})["gfs_circuit"] = c
+        return (FSTATE(c.f["id"]), FBATCH(c.f["id"]))
+
+    def mfs(it, a, k):
+        """callee contract of measure_final_state (proved above): SHAPE over the circuit's own measurements and shots"""
+        c, state, batched = a
+        g = it.ctx.ghost.setdefault("sim", {})
+        it.ctx.prove(c is g.get("gfs_circuit"), "pre:measure_final_state/the-circuit-whose-final-state-was-computed")
+        it.ctx.prove(z3.And(state == FSTATE(c.f["id"]), batched == FBATCH(c.f["id"])), "pre:measure_final_state/state-and-batched-flag-of-get_final_state")
+        tags = [m.f["tag"] for m in c.f["measurements"].items]
+        sh = c.f["shots"]
+        copies = None if sh.f["total_shots"] is None else copies_of([sc.f["copies"] for sc in sh.f["shot_vector"]])
+        return SHAPE(len(tags), copies, lambda k_, j: FINAL(tags[k_], state, batched, jval(j)))
+
+    w = World(SIM, classes=dict(SHOT_CLASSES), stubs=SIM_STUBS,
+              extra_builtins={"circuit_copy_model": copy_model, "map_wires_model": map_model, "jax_random_split": jrs, "get_final_state": gfs,
+                              "measure_final_state": mfs, "math.get_deep_interface": lambda it, a, k: "numpy"},
+              modular={"Shots.__iter__": shots_iter, "Shots.bins": shots_bins})
+
+    def circuit_T(n, pattern):
+        def mk(ctx, nm):
+            return Rec(w.classes["QuantumScript"], {"id": z3.Const(ctx.fresh_name("circuit"), LabelSort),
+                                                    "measurements": PyList([mk_mp(w, ctx, "obs", f"mp{k}") for k in range(n)]),
+                                                    "shots": mk_shots(w, ctx, pattern), "operations": PyList([Rec(w.classes["Operator"], {}), Rec(w.classes["Operator"], {})])})
+        return T("build", mk, gen=lambda rng: {"shots": {"shot_vector": [{"shots": 3 + 2 * i, "copies": c} for i, c in enumerate(pattern or [])]}})
+
+    def real_circuit(a, n, pattern):
+        import pennylane as qp
+        sm = (a.get("circuit") or {}).get("shots") if isinstance(a.get("circuit"), dict) else None
+        return qp.tape.QuantumScript([qp.RX(0.3, 0), qp.CNOT([0, 1])], [real_mp("obs", k % 2) if pattern is None else qp.sample(wires=[k % 2]) for k in range(n)],
+                                     shots=real_shots(sm, pattern))
+
+    cases = []
+    for n in (1, 2, 3):
+        for pattern in patterns:
+            copies = copies_of(pattern)
+
+            def post(o, r, n_, copies=copies):
+                tags = [m.f["tag"] for m in o.circuit.f["measurements"].items]
+                cid = MAPID(COPYID(o.circuit.f["id"]))
+                return match(r, SHAPE(len(tags), copies, lambda k_, j: FINAL(tags[k_], FSTATE(cid), FBATCH(cid), jval(j))))
+
+            def native(mod, a, n=n, pattern=pattern, copies=copies):
+                circuit = real_circuit(a, n, pattern)
+
+                def fake_gfs(c, debugger=None, **kw):
+                    return "STATE", "BATCHED?"
+
+                def fake_mfs(c, state, is_state_batched, **kw):
+                    cp = None if not c.shots else (c.shots.num_copies if c.shots.has_partitioned_shots else None)
+                    return SHAPE(len(c.measurements), cp, lambda k_, j: Marker("final", k_, state, is_state_batched, j))
+                with patched(mod, get_final_state=fake_gfs, measure_final_state=fake_mfs):
+                    got = mod.simulate(circuit)
+                exp = SHAPE(n, copies, lambda k_, j: Marker("final", k_, "STATE", "BATCHED?", j))
+                return {"native": True, "ok": got == exp and nesting(got) == nesting(exp), "observed": repr(got), "expected": repr(exp)}
+            cases.append(Case(f"no-mcm/{n}-measurements/shots[{'analytic' if pattern is None else 'x'.join(map(str, pattern))}]",
+                              {"circuit": circuit_T(n, pattern), "debugger": NoneT, "state_cache": NoneT, "prng_key": NoneT},
+                              ensures=native_post(post), kwargs_map={"prng_key": "prng_key"}, size_bounded=True, native_call=native, native_raw=True))
+    fc = FnContract(w, "simulate", cases)
+    for ob in obligations_for("C32", fc, tier):
+        plan.add(ob)
+    plan.fn_under_contract(SIM, "simulate")
+
+    # ---- simulate_tree_mcm: the shot-vector split (outer tuple, one recursive call per copy, in order) -----------------------------------------------
+    def rec_tree(it, a, k):
+        """induction hypothesis for the recursive call on ONE copy: an unpartitioned request returns one(j) (unwrapped when single)"""
+        ctx = it.ctx
+        g = ctx.ghost.setdefault("tree", {})
+        c = a[0]
+        j = g.setdefault("calls", 0)
+        g["calls"] = j + 1
+        s = c.f["shots"]
+        ctx.prove(is_intlike(s) and not isinstance(s, bool), "pre:simulate_tree_mcm/recursive-call-gets-one-copy's-shot-quantity")
+        tags = [m.f["tag"] for m in c.f["measurements"].items]
+        return SHAPE(len(tags), None, lambda k_, _j: TREE(tags[k_], to_int_term(s), z3.IntVal(j)))
+    wt = World(SIM, classes=dict(SHOT_CLASSES), stubs=SIM_STUBS,
+               extra_builtins={"circuit_copy_model": copy_model, "map_wires_model": map_model, "jax_random_split": jrs, "simulate_tree_mcm": rec_tree},
+               modular={"Shots.__iter__": shots_iter, "Shots.bins": shots_bins})
+    tcases = []
+    for n in (1, 2, 3):
+        for pattern in [p for p in patterns if copies_of(p) is not None]:
+            copies = copies_of(pattern)
+
+            def mk(ctx, nm, n=n, pattern=pattern):
+                return Rec(wt.classes["QuantumScript"], {"id": z3.Const(ctx.fresh_name("circuit"), LabelSort),
+                                                         "measurements": PyList([mk_mp(wt, ctx, "obs", f"mp{k}") for k in range(n)]),
+                                                         "shots": mk_shots(wt, ctx, pattern), "operations": PyList([])})
+
+            def post(o, r, n_, copies=copies):
+                tags = [m.f["tag"] for m in o.circuit.f["measurements"].items]
+                qs = [sc.f["shots"] for sc in o.circuit.f["shots"].f["shot_vector"] for _ in range(sc.f["copies"])]
+                return match(r, SHAPE(len(tags), copies, lambda k_, j: TREE(tags[k_], to_int_term(qs[j]), z3.IntVal(j))))
+
+            def native(mod, a, n=n, pattern=pattern, copies=copies):
+                circuit = real_circuit(a, n, pattern)
+                qs = list(circuit.shots)
+                calls = []
+
+                def fake_tree(c, debugger=None, **kw):
+                    j = len(calls)
+                    calls.append(c.shots.total_shots if not c.shots.has_partitioned_shots else "partitioned")
+                    return SHAPE(len(c.measurements), None, lambda k_, _j: Marker("tree", k_, c.shots.total_shots, j))
+                orig = mod.simulate_tree_mcm
+                with patched(mod, simulate_tree_mcm=fake_tree):
+                    got = orig(circuit)
+                exp = SHAPE(n, copies, lambda k_, j: Marker("tree", k_, qs[j], j))
+                return {"native": True, "ok": got == exp and nesting(got) == nesting(exp), "observed": repr(got), "expected": repr(exp), "recursive_calls": repr(calls)}
+            tcases.append(Case(f"shot-vector-split/{n}-measurements/shots[{'x'.join(map(str, pattern))}]",
+                               {"circuit": T("build", mk, gen=lambda rng, pattern=pattern: {"shots": {"shot_vector": [{"shots": 3 + 2 * i, "copies": c} for i, c in enumerate(pattern)]}}),
+                                "debugger": NoneT, "prng_key": NoneT},
+                               ensures=native_post(post), kwargs_map={"prng_key": "prng_key"}, size_bounded=True, native_call=native, native_raw=True))
+    fct = FnContract(wt, "simulate_tree_mcm", tcases)
+    for ob in obligations_for("C32", fct, tier):
+        plan.add(ob)
+    plan.fn_under_contract(SIM, "simulate_tree_mcm")
+    plan.assumed_contracts += ["QuantumScript.copy / map_to_standard_wires: same measurements in the same order, same shots (copy(shots=s): shots s)",
+                               "get_final_state(circuit): uninterpreted (state, is_state_batched) of the circuit; inside simulate the call of "
+                               "measure_final_state uses the contract proved for it (SHAPE)",
+                               "simulate_tree_mcm, recursive call on one shot copy: returns the unpartitioned shape one(j) (induction hypothesis; the "
+                               "unpartitioned body -- tree traversal, combine_measurements -- is NOT verified)"]
+
+
+# =========================================================================================================================================
+# bounded native stand-in: the whole stack (default.qubit through device.execute / qp.execute with each interface) against SHAPE
+def add_native_standin(plan, tier):
+    import os
+    BS = 3
+
+    def requests():
+        import numpy as np
+        import pennylane as qp
+
+        def mps(n, shots, variant):
+            pool_a = [qp.expval(qp.Z(0)), qp.probs(wires=[0, 1]), qp.var(qp.X(1)), qp.expval(qp.X(0) @ qp.Z(1))]
+            pool_s = [qp.expval(qp.Z(0)), qp.sample(wires=[0]), qp.counts(wires=[0, 1]), qp.probs(wires=[1]), qp.expval(0.5 * qp.X(0) + qp.Y(1)), qp.var(qp.Z(1))]
+            pool = pool_a if shots is None else pool_s
+            return [pool[(variant + k) % len(pool)] for k in range(n)]
+        for n in (1, 2, 3):
+            for shots in (None, 10, (10, 20), (5, 5, 7)):
+                for bc in (False, True):
+                    for variant in range(3 if tier != "thorough" else 6):
+                        x = np.array([0.1, 0.2, 0.3]) if bc else 0.1
+                        yield n, shots, bc, variant, qp.tape.QuantumScript([qp.RX(x, 0), qp.CNOT([0, 1])], mps(n, shots, variant), shots=shots)
+
+    def norm(res, bc, strict):
+        """nesting of a result; a broadcasted counts result (one dictionary per batch element) is ONE leaf -- unless `strict`"""
+        if isinstance(res, (list, tuple)) and bc and not strict and len(res) == BS and all(isinstance(x, dict) for x in res):
+            return "*"
+        if isinstance(res, tuple):
+            return tuple(norm(x, bc, strict) for x in res)
+        return "*"
+
+    def run(strict):
+        import numpy as np
+        import pennylane as qp
+        dev = qp.device("default.qubit", wires=2)
+        count, bad = 0, []
+        for n, shots, bc, variant, tape in requests():
+            copies = tape.shots.num_copies if tape.shots.has_partitioned_shots else None
+            exp = SHAPE(n, copies, lambda k, j: "*")
+            for how in ("device.execute", "qp.execute/numpy", "autograd", "jax", "torch"):
+                if how == "device.execute":
+                    res = dev.execute(tape)
+                elif how == "qp.execute/numpy":
+                    res = qp.execute([tape], dev, diff_method=None)[0]
+                else:
+                    res = qp.execute([tape], dev, diff_method=qp.gradients.param_shift, interface=how)[0]
+                count += 1
+                got = norm(res, bc, strict)
+                ok = got == exp
+                if ok and bc:
+                    # broadcast size is the leading axis of every array leaf
+                    def leaves(x):
+                        if isinstance(x, tuple):
+                            for y in x:
+                                yield from leaves(y)
+                        else:
+                            yield x
+                    for lf in leaves(res):
+                        if not isinstance(lf, (dict, list)) and (len(np.shape(lf)) == 0 or np.shape(lf)[0] != BS):
+                            ok = False
+                if not ok:
+                    bad.append(dict(measurements=[repr(m) for m in tape.measurements], shots=repr(shots), broadcast=bc, entry_point=how,
+                                    nesting=repr(got), expected=repr(exp)))
+        return count, bad
+
+    def mk(strict, label):
+        def fn():
+            try:
+                count, bad = run(strict)
+            except Exception:  # pylint: disable=broad-except
+                import traceback
+                return Outcome(UNDECIDED, "native", "bounded stand-in crashed: " + traceback.format_exc()[-1500:])
+            if bad:
+                return Outcome(REFUTED, "native", f"{len(bad)} of {count} executions return a nesting different from SHAPE", witness=bad[0],
+                               replay=dict(confirmed=True, observed=bad[0]["nesting"], expected=bad[0]["expected"], inputs=bad[0], others=bad[1:6]))
+            return Outcome(DISCHARGED, "native(bounded)", f"{count} executions: nesting(result) == SHAPE", extra=dict(bounded=True))
+        return Obligation(f"C32/execution:execute/bounded-native[{label}]", "bounded", fn, func=("pennylane/workflow/execution.py", "execute"), bounded=True, timeout=900,
+                          sample="default.qubit, 1-3 measurements x shots {None, 10, (10,20), (5,5,7)} x broadcast {no, 3} x device.execute / qp.execute with "
+                                 "numpy, autograd, jax, torch: nesting(result) == SHAPE(n, copies)")
+    plan.add(mk(False, "default.qubit x 5 entry points"))
+    if os.environ.get("C32_CANDIDATE"):
+        # candidate defect (reported to the lead, not registered): broadcasted counts are a LIST of dictionaries with numpy / torch and a
+        # TUPLE of dictionaries with autograd / jax (_to_autograd / _to_jax turn every list into a tuple) -- interface-dependent nesting
+        plan.add(mk(True, "default.qubit x 5 entry points, broadcasted counts strict"))
+    plan.unverified.append("container type of a BROADCASTED counts result (one dictionary per batch element): list with numpy / torch, tuple with "
+                           "autograd / jax -- candidate defect, the bounded stand-in treats it as one leaf (set C32_CANDIDATE=1 for the strict comparison)")
+
+
+# =========================================================================================================================================
+# measure_final_state for ANY number of measurements (symbolic-length measurement list; shot-vector pattern enumerated)
+def add_measure_final_state_symbolic(plan, tier):
+    patterns = [None, [1], [2], [1, 2]] if tier != "thorough" else [None, [1], [2], [1, 1], [3], [1, 2], [2, 1], [1, 1, 1]]
+    SYM_STUBS = dict(STUBS)
+    SYM_STUBS["QuantumScript"] = ("class QuantumScript:\n    pass\n", {"measurements": SeqT(Label, tuple=False), "shots": Int})
+
+    def bt_of(v):
+        return v if isinstance(v, z3.ExprRef) else z3.BoolVal(bool(v))
+
+    def measure_model(it, args, kw):
+        mp, state = args
+        return MEAS(mp, state, bt_of(kw["is_state_batched"]))
+
+    def mws_callee(it, args, kw):
+        """measure_with_samples for a measurement list of symbolic length: PACKED as a quantified fact"""
+        ctx = it.ctx
+        g = ctx.ghost["mfs"]
+        meas, state = args[0], args[1]
+        ctx.prove(isinstance(meas, SeqV) and meas.term.eq(g["circuit"].f["measurements"].term), "pre:measure_with_samples/measurements-are-the-circuit's")
+        ctx.prove(kw.get("shots") is g["circuit"].f["shots"], "pre:measure_with_samples/shots-are-the-circuit's")
+        ctx.prove(state == g["state"], "pre:measure_with_samples/state-unchanged")
+        ctx.prove(kw.get("is_state_batched") == g["batched"], "pre:measure_with_samples/batched-flag-unchanged")
+        ctx.prove(kw.get("mid_measurements") is None, "pre:measure_with_samples/no-mid-measurements")
+        bt = bt_of(kw.get("is_state_batched"))
+
+        def packed_row(j):
+            r = z3.Const(ctx.fresh_name(f"sampled_row{j}"), z3.SeqSort(LabelSort))
+            i = z3.Int(ctx.fresh_name("pi"))
+            ctx.assume(z3.Length(r) == z3.Length(meas.term))
+            ctx.assume(z3.ForAll([i], z3.Implies(z3.And(i >= 0, i < z3.Length(meas.term)), r[i] == RES(meas.term[i], state, bt, jval(j))), patterns=[r[i]]))
+            return SeqV(r, Label, True)
+        copies = g["copies"]
+        return packed_row(None) if copies is None else tuple(packed_row(j) for j in range(copies))
+
+    w = sim_world({"measure": measure_model, "measure_with_samples": mws_callee})
+    w.classes["QuantumScript"] = World(SIM, stubs=SYM_STUBS).classes["QuantumScript"]
+
+    def circuit_T(pattern):
+        def mk(ctx, nm):
+            c = Rec(w.classes["QuantumScript"], {"measurements": SeqV(z3.Const(ctx.fresh_name("measurements"), z3.SeqSort(LabelSort)), Label, False),
+                                                 "shots": mk_shots(w, ctx, pattern)})
+            ctx.ghost.setdefault("mfs", {})["circuit"] = c
+            ctx.ghost["mfs"]["copies"] = copies_of(pattern)
+            return c
+        return T("build", mk, gen=lambda rng: {"measurements": ["L0"] * rng.choice([0, 1, 1, 2, 3, 5]),
+                                               "shots": {"shot_vector": [{"shots": 3 + 2 * i, "copies": c} for i, c in enumerate(pattern or [])]}})
+
+    def ghosted(key, t):
+        def mk(ctx, nm):
+            from vf.pyvc.engine import fresh
+            v = fresh(ctx, t, nm)
+            ctx.ghost.setdefault("mfs", {})[key] = v
+            return v
+        return T("build", mk, gen=lambda rng: False)
+
+    def post(pattern):
+        copies = copies_of(pattern)
+
+        def p(o, r, n_):
+            m = o.circuit.f["measurements"].term
+            n = z3.Length(m)
+            bt = o.is_state_batched
+
+            def one(x, leaf):
+                if isinstance(x, z3.ExprRef) and x.sort() == LabelSort:
+                    return z3.And(n == 1, x == leaf(m[0]))
+                if isinstance(x, SeqV) and x.is_tuple:
+                    i = z3.Int("C32_i")
+                    return z3.And(n != 1, z3.Length(x.term) == n, z3.ForAll([i], z3.Implies(z3.And(i >= 0, i < n), x.term[i] == leaf(m[i]))))
+                return False
+            if pattern is None:
+                return one(r, lambda t: MEAS(t, o.state, bt))
+            if copies is None:
+                return one(r, lambda t: RES(t, o.state, bt, jval(None)))
+            if not isinstance(r, tuple) or len(r) != copies:
+                return False
+            parts = [one(r[j], lambda t, j=j: RES(t, o.state, bt, jval(j))) for j in range(copies)]
+            return False if any(q is False for q in parts) else z3.And(*parts)
+        return p
+
+    def native(pattern):
+        def call(mod, a):
+            import pennylane as qp
+            try:
+                n = max(0, min(8, len(a["circuit"]["measurements"])))
+            except Exception:  # pylint: disable=broad-except
+                n = 2
+            circuit = qp.tape.QuantumScript([], [real_mp("obs", k) for k in range(n)], shots=real_shots((a.get("circuit") or {}).get("shots"), pattern))
+            copies = copies_of(pattern)
+            batched = bool(a.get("is_state_batched"))
+
+            def fake_measure(mp, state, is_state_batched=False, **kw):
+                return Marker("M", [i for i, m in enumerate(circuit.measurements) if m is mp][0], state, is_state_batched)
+
+            def fake_mws(measurements, state, shots=None, is_state_batched=False, rng=None, prng_key=None, mid_measurements=None):
+                return PACKED(len(measurements), copies, lambda k, j: Marker("S", k, state, is_state_batched, j))
+            with patched(mod, measure=fake_measure, measure_with_samples=fake_mws):
+                got = mod.measure_final_state(circuit, "STATE", batched, rng=None, prng_key=None)
+            exp = SHAPE(n, None, lambda k, j: Marker("M", k, "STATE", batched)) if pattern is None else SHAPE(n, copies, lambda k, j: Marker("S", k, "STATE", batched, j))
+            return {"native": True, "ok": got == exp and nesting(got) == nesting(exp), "observed": repr(got), "expected": repr(exp), "n_measurements": n}
+        return call
+    cases = []
+    for pattern in patterns:
+        tag = "analytic" if pattern is None else "shots[" + "x".join(map(str, pattern)) + "]"
+        cases.append(Case(f"any-number-of-measurements/{tag}", {"circuit": circuit_T(pattern), "state": ghosted("state", Label), "is_state_batched": ghosted("batched", Bool),
+                                                                "rng": NoneT, "prng_key": NoneT},
+                          ensures=native_post(post(pattern)), kwargs_map={"rng": "rng", "prng_key": "prng_key"}, native_call=native(pattern), native_raw=True))
+    fc = FnContract(w, "measure_final_state", cases)
+    for ob in obligations_for("C32", fc, tier):
+        plan.add(ob)
+    plan.trusted_base.append("z3 sequence theory + quantifier instantiation (measure_final_state for a measurement list of symbolic length)")
